@@ -6,7 +6,10 @@ package rt
 import (
 	"context"
 	"errors"
+	"fmt"
 	"io"
+	"runtime/debug"
+	"strings"
 	"sync"
 	"time"
 
@@ -30,10 +33,12 @@ type scriptT struct {
 	writeBlock chan struct{} // if non-nil Write blocks until closed
 	flushBlock chan struct{} // if non-nil Flush blocks until closed or ctx done
 
-	wbuf     []byte         // written, not yet flushed
-	onFlush  func(b []byte) // called (outside the lock) with each flushed chunk
-	staleEOF bool           // see Read
-	flushed  [][]byte
+	wbuf      []byte         // written, not yet flushed
+	onFlush   func(b []byte) // called (outside the lock) with each flushed chunk
+	staleEOF  bool           // see Read
+	lastClose string         // who closed it last (diagnostics)
+	readLog   []string
+	flushed   [][]byte
 
 	opens, closes int
 }
@@ -64,6 +69,7 @@ func (s *scriptT) Open() error {
 	}
 	s.open = true
 	s.gen++
+	s.readLog = append(s.readLog, fmt.Sprintf("Open -> gen %d", s.gen))
 	s.in = nil
 	s.inErr = nil
 	s.wbuf = nil
@@ -90,6 +96,8 @@ func (s *scriptT) Close() error {
 		return thrift.NewTTransportException(thrift.NOT_OPEN, "scriptT: not open")
 	}
 	s.open = false
+	s.readLog = append(s.readLog, fmt.Sprintf("Close at gen %d", s.gen))
+	s.lastClose = fmt.Sprintf("gen=%d readlog=%v\n%s", s.gen, strings.Join(s.readLog, "\n   "), debug.Stack())
 	s.cond.Broadcast()
 	return nil
 }
@@ -110,14 +118,17 @@ func (s *scriptT) Read(p []byte) (int, error) {
 				}
 				return 0, eofErr()
 			}
+			s.readLog = append(s.readLog, fmt.Sprintf("Read(entered gen %d, now %d open=%v) -> closed", gen, s.gen, s.open))
 			return 0, errScriptClosed
 		}
 		if len(s.in) > 0 {
 			n := copy(p, s.in)
 			s.in = s.in[n:]
+			s.readLog = append(s.readLog, fmt.Sprintf("Read(entered gen %d, now %d, buf %d) -> %d bytes", gen, s.gen, len(p), n))
 			return n, nil
 		}
 		if s.inErr != nil {
+			s.readLog = append(s.readLog, fmt.Sprintf("Read(entered at gen %d, now gen %d) -> %v", gen, s.gen, s.inErr))
 			return 0, s.inErr
 		}
 		if len(p) == 0 {
